@@ -180,14 +180,43 @@ func extractC16Wait(c *Ctx) {
 				switch x := n.(type) {
 				case *ast.DeferStmt:
 					return false
+				case *ast.ExprStmt:
+					// a call whose result is thrown away (WaitForStateChange answers whether the context ended)
+					if ce, ok := x.X.(*ast.CallExpr); ok {
+						if se, ok := ce.Fun.(*ast.SelectorExpr); ok && se.Sel.Name == "WaitForStateChange" {
+							out = append(out, "ignored-result")
+						}
+					}
+				case *ast.AssignStmt:
+					blank := len(x.Lhs) > 0
+					for _, l := range x.Lhs {
+						if id, ok := l.(*ast.Ident); !ok || id.Name != "_" {
+							blank = false
+						}
+					}
+					if blank {
+						out = append(out, "ignored-result")
+					}
+				case *ast.CaseClause:
+					for _, e := range x.List {
+						if se, ok := e.(*ast.SelectorExpr); ok {
+							out = append(out, "case:"+se.Sel.Name)
+						}
+					}
 				case *ast.CallExpr:
 					if se, ok := x.Fun.(*ast.SelectorExpr); ok {
 						switch se.Sel.Name {
 						case "GetState", "Connect", "WaitForStateChange":
 							out = append(out, se.Sel.Name)
+						default:
+							// any other method call (a once-guard such as CompareAndSwap / Do / Load) is part of the trace
+							out = append(out, "call:"+se.Sel.Name)
 						}
 					}
 				case *ast.BinaryExpr:
+					if x.Op == token.LAND || x.Op == token.LOR {
+						out = append(out, "cond:"+x.Op.String())
+					}
 					if x.Op == token.EQL {
 						if se, ok := x.Y.(*ast.SelectorExpr); ok {
 							if id, ok := se.X.(*ast.Ident); ok && id.Name == "connectivity" {
